@@ -14,11 +14,17 @@ RULE = ("real pricing runs traced from the harness through the public process AP
         "the stores of pre-drawn variates are found by VALUE in the object graph whatever their type, name or holder - deque, "
         "list, ndarray, iterator - and, failing that, the consumption is read off the helper arguments / the returned paths): "
         "standard engine x {direct Levy process on BS/HEM/Merton, CTMC chain} x {fixed-date, jump-time} x {single date, 2-4 dates: "
-        "spot observed on a date grid, the library's Asian} x {1, 2 processes} x {seed None, 0, 7, drawn}; multilevel engine with the "
+        "spot observed on a date grid, the library's Asian} x {1, 2 processes} x {seed None, 0, 7, drawn}; pool runs with the configuration "
+        "arguments at their documented default / None / omitted values next to explicit ones: nb_of_processes {None, not passed (one "
+        "worker per core; 192 paths), 2, 3} x seed {None, not passed, 0, drawn positive} in jump-time mode (single- and multi-date) "
+        "and CTMC fixed-date mode, judged inside one run only (worker-state oracle: no two simulating workers in the same seeded "
+        "generator state; shared-variate and counting oracles); multilevel engine with the "
         "real 1-d coupling on scripted oracle histories, single- and multi-date; for every process/engine/mode one multi-date run "
         "of 250 paths with intensity*dt = 0.55 (interval-dependence oracle). non-trivial = at least 2 paths and at least one draw; "
         "distinct = distinct (engine, process, mode, dates, processes, seed, sizes)")
-NOT_PROVED = ["OS scheduling, pid*time seed collisions between workers and the statistical quality of MT19937 are not modelled",
+NOT_PROVED = ["the multilevel engine is driven single-process only (scripted histories): its pool branch (multilevel/engine.py:128-155) "
+              "shares initialisation_seed with the standard engine but is not run",
+              "OS scheduling, pid*time seed collisions between workers and the statistical quality of MT19937 are not modelled",
               "multi-process runs: proved safe for every schedule in jump-time mode (tokens_disjoint_multiprocess_partial) under the assumption that "
               "workers are in distinct generator states; fixed-date mode is refuted by the copied-deques witness; the chunking of pathos is not modelled",
               "'consumed exactly once' is checked as 'at most once': pre-drawn batches that are replaced unused (engine initialisation, "
@@ -30,7 +36,11 @@ NOT_PROVED = ["OS scheduling, pid*time seed collisions between workers and the s
               ">= paths x dimension x steps, (iii) statistically: over >= 250 paths some path must have a jump in exactly one of the dates 0 and j "
               "(false-alarm probability < 1e-18 per pair of dates, < 1e-15 per check run, computed from the intensity; seeds drawn from ctx.rng); "
               "a dependence between dates that keeps (ii) and (iii) - e.g. correlated but not identical counts behind an opaque store - is not seen"]
-ASSUMPTIONS = ["distinct worker processes receive pairwise distinct seeds from pid*time (checked on the trace: equal seeds would show as duplicates)",
+ASSUMPTIONS = ["distinct worker processes receive pairwise distinct seeds from pid*time (checked on the trace by c08.workers_same_state: two "
+               "simulating workers whose last seed call carries the same value are a violation; a pid*time collision modulo 123456789 "
+               "between workers of one pool would show there too)",
+               "the size of a default pool (nb_of_processes None / omitted) is the core count of the host: on a one-core host those "
+               "runs have a single worker and the worker-state oracle is vacuous (evidence branch c08.run:pool_workers_1)",
                "whenever numpy.random.poisson is used at all in a run, every jump count of that run is one scalar drawn by it (the counting "
                "oracle is not armed - and says so in the notes - when no such draw occurs)",
                "a single jump has a non-zero size (continuous jump sizes; chain states exclude the origin), used for the false-alarm bound only"]
@@ -40,6 +50,8 @@ TRUSTED = ["numpy.random / random global generators are deterministic functions 
 
 FALSE_ALARM_LOG = math.log(1e-18)       # per pair of dates; at most ~100 armed pairs per check run
 BIG_N, BIG_X = 250, 0.55
+POOL_N = 192                            # paths of a default-sized pool (one worker per core): several chunks per worker
+OMITTED = "omitted"                     # a configuration argument that is not passed (its documented default applies)
 
 
 def make_product(mode, dates=1, maturity=1.0, underlying="spot"):
@@ -124,7 +136,10 @@ def run_standard(ctx, kind, mode, n, seed, nproc, tag, reuse=None, dates=1, matu
     d = ctx.work / f"trace_{tag}"
     if reuse is None:
         process = make_process(kind, ctx.rng)
-        cfg = ConfigurationStandard(mc_paths=n, seed=seed, nb_of_processes=nproc)
+        kw = {} if nproc == OMITTED else {"nb_of_processes": nproc}
+        if seed != OMITTED:
+            kw["seed"] = seed
+        cfg = ConfigurationStandard(mc_paths=n, **kw)
         engine = Engine(configuration=cfg, process=process)
     else:
         engine = reuse                      # the SAME engine / process / sampler objects priced again
@@ -247,12 +262,39 @@ def interval_oracle(ctx, an):
     return armed, None
 
 
+def worker_state_oracle(ctx, desc, an, cls):
+    """pool runs: two worker processes that draw variates on the fly must not have been put in the same generator state (the same
+    seed value applied to the same generator in two processes that both go on to simulate paths: every variate of the one is a
+    variate of the other).  Judged on the seed calls and the on-the-fly draws of the trace, independently of where the pre-drawn
+    stores live - hence also in fixed-date mode, whose copied stores are a separate, recorded finding."""
+    drawing = {p["pid"] for p in an["paths"] if p.get("fly")}
+    last = {}
+    for pid, lib, s, _before in an["seeds"]:
+        last[(pid, lib)] = s             # the state a process simulates from is the one of its last seed call
+    by_state = {}
+    for (pid, lib), s in last.items():
+        if pid in drawing and s is not None:
+            by_state.setdefault((lib, s), set()).add(pid)
+    workers = sorted({p["pid"] for p in an["paths"]})
+    ctx.branches["c08.run:pool_workers_" + ("1" if len(workers) == 1 else "2-4" if len(workers) <= 4 else "5+")] += 1
+    for (lib, s), pids in sorted(by_state.items(), key=str):
+        if len(pids) > 1:
+            ctx.fail("oracle", "c08.workers_same_state", desc,
+                     {"what": "several worker processes of one run were seeded to the same generator state and each went on to draw "
+                              "variates for its samples: their samples are built from the same variates", "lib": lib, "seed": s,
+                      "workers_in_that_state": len(pids), "workers_simulating": len(workers), "paths": len(an["paths"])}, cls=cls)
+            return False
+    return True
+
+
 def oracle(ctx, desc, an, seed, nproc, cls):
     """S on the trace"""
     for t in an["notes"]:
         note(ctx, t)
     for p in an["problems"]:
         ctx.fail("oracle", "c08.trace_problem", desc, p, cls=cls)
+        return False
+    if nproc != 1 and not worker_state_oracle(ctx, desc, an, cls):
         return False
     seen, seen_dh = {}, {}
     for i, path in enumerate(an["paths"]):
@@ -335,7 +377,9 @@ def standard_case(ctx, kind, mode, n, seed, nproc, dates=1, maturity=1.0, underl
     desc = dict(engine="standard", process=kind, mode=mode, n=n, seed=seed, nproc=nproc)
     if dates != 1 or underlying != "spot" or maturity != 1.0:
         desc.update(dates=dates, maturity=maturity, underlying=underlying)
-    cls = dict(engine="standard", mode=mode, multiprocess=nproc > 1, multidate=dates > 1 or underlying != "spot")
+    # nproc: 1 = the single-process loop; 2, 4, ... = a pool of that many workers; None = the documented default (a pool with one
+    # worker per core); OMITTED = the argument is not passed at all.  Everything but 1 takes the pool code path.
+    cls = dict(engine="standard", mode=mode, multiprocess=nproc != 1, multidate=dates > 1 or underlying != "spot")
     kw = dict(dates=dates, maturity=maturity, underlying=underlying)
     try:
         rows, an = run_standard(ctx, kind, mode, n, seed, nproc, "a", **kw)
@@ -343,6 +387,8 @@ def standard_case(ctx, kind, mode, n, seed, nproc, dates=1, maturity=1.0, underl
         ctx.fail("oracle", "c08.engine_raises", desc, {"what": f"{type(e).__name__}: {e}"}, cls=cls)
         return
     multi = "multi" if (dates > 1 or underlying != "spot") else "single"
+    if seed == OMITTED:
+        seed = None                      # from here on: the value the documented default stands for
     ctx.count("c08.run", desc, nontrivial=n >= 2, branch=f"std:{kind}:{mode}:{multi}:p{nproc}:{'seed' if seed is not None else 'noseed'}")
     if not oracle(ctx, desc, an, seed, nproc, cls):
         return
@@ -425,6 +471,19 @@ def run(ctx):
         for nproc in ((2,) if not ctx.thorough else (2, 4)):
             standard_case(ctx, "hem", mode, 6, None, nproc)
             standard_case(ctx, "hem", mode, 6, None, nproc, dates=3, maturity=1.0)
+    # ... the configuration arguments at their documented default / None / omitted values next to explicit ones: nb_of_processes
+    # None or not passed (a pool with one worker per core), seed None / not passed / 0 / positive.  Jump-time mode draws every variate
+    # inside the workers and is judged by all oracles; fixed-date mode additionally by the worker-state oracle.  Samples of pool
+    # runs are compared with each other inside ONE run only (per-worker seeds are random by design: no run-to-run equality).
+    pools = [(None, rng.randrange(1, 10 ** 6)), (OMITTED, 0), (rng.choice([None, OMITTED]), rng.choice([None, OMITTED])),
+             (2, rng.randrange(1, 10 ** 6)), (rng.choice([2, 3]), 0)]
+    for nproc, seed in pools:
+        wide = nproc in (None, OMITTED)
+        standard_case(ctx, rng.choice(["hem", "merton", "ctmc"]), "jump", POOL_N if wide else rng.randint(6, 24), seed, nproc)
+    standard_case(ctx, rng.choice(["hem", "merton", "ctmc"]), "jump", POOL_N, rng.randrange(1, 10 ** 6), rng.choice([None, OMITTED]),
+                  dates=rng.choice([2, 3]), maturity=1.0)
+    for nproc, seed in (pools[0], pools[3]):
+        standard_case(ctx, "ctmc", "fixed", 48 if nproc is None else 8, seed, nproc)
     # multilevel engine, real coupling
     hists = [
         (0, 2, 2, [([2], False, [2, 2]), ([3, 2], False, [3, 2, 2]), ([0] * 8, True, [0] * 8)]),
